@@ -464,6 +464,7 @@ class InterpolatedLinearOperator(LinearOperator):
         # Otherwise, will only convert device.
 
         device, dtype = _to_helper(*args, **kwargs)
+        dtype = self.dtype if dtype is None else dtype
 
         new_args = []
         new_kwargs = {}
